@@ -124,6 +124,8 @@ func (s inputSpec) build() []byte {
 		}
 	case "text":
 		copy(b, srcSpec{Fam: "S4", Len: s.Len, Content: "text"}.build(nil))
+	case "rep65536":
+		copy(b, srcSpec{Fam: "S4", Len: s.Len, Content: "rep65536"}.build(nil))
 	case "lcg":
 		lcgFill(b, uint64(s.Len)+99)
 	case "zerosum":
@@ -161,6 +163,9 @@ func inputsFor(B int, thorough, legacy bool) []inputSpec {
 			}
 			out = append(out, inputSpec{n, ct})
 		}
+	}
+	if !legacy && B > 65536 {
+		out = append(out, inputSpec{B, "rep65536"}, inputSpec{200000, "rep65536"})
 	}
 	if !legacy {
 		// zero-checksum inputs: length ≡ 4 (mod 16) so that the tail is one 4-byte step
